@@ -253,6 +253,30 @@ def oracle_base_vs_files(pcfg, spec, prop):
     return []
 
 
+def oracle_structures_vs_files(pcfg, spec, flags):
+    """C02 speaks of the pre-terminals of the *grammar* (the ruleset), not of what the loader made of grammar.txt: whatever the
+    flags, the loaded base structures must be the lines of grammar.txt in order (without the Markov line under skip_brute), each
+    tokenised into its labels with a `C<n>` directly after every `A<n>` - also when a variable occurs twice in one structure.
+    Computed from the spec text, independently of the loader."""
+    import re
+    want = []
+    for st, _p in spec['grammar']:
+        if st == 'M' and flags.get('skip_brute'):
+            continue
+        reps = []
+        for tok in re.findall('[A-Z][0-9]*', st):
+            reps.append(tok)
+            if tok[0] == 'A':
+                reps.append('C' + tok[1:])
+        want.append(reps)
+    got = [list(b['replacements']) for b in pcfg.base]
+    if got != want:
+        k = next((i for i, (a, b) in enumerate(zip(got, want)) if a != b), min(len(got), len(want)))
+        return [{'property': pr, 'kind': 'loaded-base-structures-differ-from-file', 'index': k,
+                 'loaded': str(got[k:k + 1]), 'file': str(want[k:k + 1])} for pr in ('C02', 'C01')]
+    return []
+
+
 def run_case(ruledir, flags, cuts_rng=None, ncuts=0, max_nodes=600, all_cuts=False, spec=None):
     """one ruleset directory -> protocol ops, expected answers, oracle verdicts, statistics"""
     pcfg = common.load_grammar(ruledir, **flags)
@@ -269,6 +293,7 @@ def run_case(ruledir, flags, cuts_rng=None, ncuts=0, max_nodes=600, all_cuts=Fal
     viol = oracle_full_run(grid, emitted, complete)
     if spec is not None:
         viol += oracle_loaded_vs_files(pcfg, spec, flags)
+        viol += oracle_structures_vs_files(pcfg, spec, flags)
     # determinism: a second run gives the same sequence
     pq2 = fresh_queue(pcfg)
     second = []
